@@ -52,10 +52,10 @@ ASSUMPTIONS = [
 ]
 
 KINDS = c08.KINDS
-STATEFUL = {'echo_get', 'echo_post', 'echo_put', 'echo_head', 'upload', 'raise_resp', 'gen', 'crash', 'teapot', 'chunked_ok',
+STATEFUL = {'busy_str', 'badchunk_sizeline', 'echo_get', 'echo_post', 'echo_put', 'echo_head', 'upload', 'raise_resp', 'gen', 'crash', 'teapot', 'chunked_ok',
             'hookcrash', 'raise_err'}
 FAILING = ['notfound', 'notallowed', 'json404', 'badchunk', 'big', 'badpath', 'crash', 'hookcrash', 'raise_err', 'teapot',
-           'badchunk_json', 'badjson', 'badchunk', 'big']
+           'badchunk_json', 'badjson', 'badchunk', 'big', 'badchunk_sizeline', 'limit_num']
 RETAIN_MAX = 6
 
 
@@ -94,6 +94,7 @@ def run_case(case):
     specs = case['history']
     cfg = case['cfg']
     repeat = case.get('repeat', 1)
+    c08.flush_process_state()
     app = c08.new_app(cfg)
     refs = []          # per request: weakrefs of its per-request objects
     earlier = []       # markers of earlier requests
@@ -109,6 +110,13 @@ def run_case(case):
             env['sim.token'] = tok
             mine = [weakref.ref(tok), weakref.ref(env['wsgi.input']), weakref.ref(env['wsgi.errors'])]
             r = call_app(app, env)
+            buf = env.get('wsgi.input')
+            if buf is not None and all(w() is not buf for w in mine):
+                try:
+                    mine.append(weakref.ref(buf))     # the framework's own buffered copy of the body
+                except TypeError:
+                    pass
+            del buf
             notes = list(echo.notes())
             canon = c08.canon_resp(r)
             refs.append(mine)
@@ -125,12 +133,30 @@ def run_case(case):
                 violation(res, 'C09:escape', f'request #{k} ({sp["kind"]} {sp["m"]}): exception escaped app(): '
                                              f'{type(r.escaped).__name__}: {r.escaped}')
                 continue
+            # nothing received or set while serving an earlier request may appear in this response
+            text = (r.status or '') + '\n' + '\n'.join(f'{hk}: {hv}' for hk, hv in (r.headers or [])) + '\n' + r.body.decode('latin1')
+            foreign = c08.foreign_markers(text, sp['m'])
+            if not foreign:
+                for name, val in notes:
+                    foreign = c08.foreign_markers(repr(val), sp['m'])
+                    if foreign:
+                        text = f'{name} = {val!r}'
+                        break
+            if foreign:
+                violation(res, f'C09:earlier-request-visible:{sp["kind"]}',
+                          f'request #{k} ({sp["kind"]} {sp["m"]}) shows marker(s) {foreign} of another request: {text[:300]!r}')
+                continue
             probs = c08.wellformed(r, c08.environ_method(sp))
             if probs:
                 violation(res, f'C09:malformed-response:{sp["kind"]}',
                           f'request #{k} ({sp["kind"]} {sp["m"]}): ' + '; '.join(probs))
                 continue
-            a_canon, a_notes, _ = c08.restart_reference(sp, cfg)
+            ref = c08.restart_reference(sp, cfg)
+            if ref is None:
+                violation(res, f'C09:no-answer:{sp["kind"]}', f'request #{k} ({sp["kind"]}): the same request is never answered '
+                                                              f'by a freshly started process')
+                continue
+            a_canon, a_notes, _ = ref
             if canon != a_canon:
                 diff = [x for x in a_canon if canon.get(x) != a_canon[x]]
                 what = []
